@@ -417,11 +417,19 @@ def multi_body(case, ctx, tmp):
     singles = [da.read_nc(p) for p in fns]
     ctx.outcomes['multifile-reads'] += 1
     var = rng.choice([None, names[0]])
+    use_glob = rng.random() < 0.25
+    if use_glob:
+        # a glob pattern: the files are taken in sorted order
+        order_ = sorted(range(nf), key=lambda j: fns[j])
+        fns = [fns[j] for j in order_]
+        singles = [singles[j] for j in order_]
+        specs = [specs[j] for j in order_]
+    farg = os.path.join(tmp, "*.nc") if use_glob else list(fns)
     if mode.startswith('stack'):
         keys = rng.choice([None, rng.sample(['p', 'q', 'r'], nf)])
         kw = {"align": True, "sort": rng.random() < 0.5} if mode == 'stack-align' else {}
         label = "read_nc(%d files, %r, axis='snew', keys=%r, %s)" % (nf, var, keys, kw)
-        g, exc = ctx.call(label, lambda: da.read_nc(list(fns), var, axis='snew', keys=keys, **kw), operands=())
+        g, exc = ctx.call(label, lambda: da.read_nc(farg, var, axis='snew', keys=keys, **kw), operands=())
         ek = keys if keys is not None else [os.path.splitext(p)[0] for p in fns]
         try:
             e = da.stack_ds(singles, axis='snew', keys=ek, **kw)
@@ -434,7 +442,7 @@ def multi_body(case, ctx, tmp):
             alll = sum([s["axes"][cd][0] for s in specs], [])
             keys = rng.sample(alll, rng.randint(1, len(alll)))
         label = "read_nc(%d files, %r, axis=%r, keys=%s, %s)" % (nf, var, cd, codec.short(keys, 60), kw)
-        g, exc = ctx.call(label, lambda: da.read_nc(list(fns), var, axis=cd, keys=keys, **kw), operands=())
+        g, exc = ctx.call(label, lambda: da.read_nc(farg, var, axis=cd, keys=keys, **kw), operands=())
         try:
             e = da.concatenate_ds(singles, axis=cd, **kw)
             if keys is not None:
